@@ -141,6 +141,7 @@ def _unit(srcs: dict) -> str:
         name, vals = srcs['fix_offset']['enum']
         s.append('typedef enum { ' + ', '.join(f'{k} = {v}' for k, v in vals.items()) + ' } ' + name + ';')
         s.append('const npy_intp border_flag_value = std::numeric_limits<npy_intp>::max();')
+        s += [d for d in srcs['fix_offset'].get('deps', []) if 'border_flag_value =' not in d]    # helpers / constants of the same file
         s.append(srcs['fix_offset']['text'])
         s.append('extern "C" long cs_fix_offset(long m, long cc, long len) { return fix_offset((ExtendMode)m, cc, len); }')
     s.append('namespace {')
